@@ -156,7 +156,24 @@ def wrapper_target(P, tu, M, wname):
     return e.get('fn'), [cf.evalc(a) for a in e['a'][2:]], calls[0].get('macro')
 
 
-def run(chk):
+class _Mute:
+    """a rule sink that records nothing (used when only the cell rules are wanted)"""
+    instances = 0
+
+    def ok(self, *a, **k):
+        pass
+
+    def bad(self, *a, **k):
+        pass
+
+    def check(self, cond, *a, **k):
+        return cond
+
+    def note(self, *a):
+        pass
+
+
+def run(chk, mode_filter=None, alg_filter=None, only_cells=False, ids=('T2', 'T2h', 'T6')):
     P = cf.Program()
     M = build.macros()
     modes = {k: v for k, v in P.enum_types['IMB_CIPHER_MODE'].items()}
@@ -170,20 +187,29 @@ def run(chk):
     NUM = modes.get('IMB_CIPHER_NUM')
     ANUM = algs.get('IMB_AUTH_NUM')
     ENC = P.enum('IMB_DIR_ENCRYPT')
-    chk.explanation = ('The finite cipher x key-size x direction and hash matrices are decided cell by cell from the source of every variant '
+    if not only_cells:
+        chk.explanation = ('The finite cipher x key-size x direction and hash matrices are decided cell by cell from the source of every variant '
                        'TU: table geometry and the index arithmetic shared by writer and readers; for every cell that validation accepts, '
                        'constant propagation of (mode, key size) through the dispatch functions yields the set of kernels reached, whose '
                        'names must carry the mode\'s family, the job\'s key size and the table\'s direction; the accepted set is extracted '
                        'from the two validators, which must agree, with symmetric AEAD pairing; stage bits, chain order and '
                        'submit/flush pairing on the same out-of-order manager. Not decided: that the kernel behind a correct cell '
                        'computes the algorithm.')
-    t1 = chk.rule('T1', 'table geometry and index arithmetic agree between set_cipher_suite_id / SUBMIT_JOB_CIPHER / CALL_* readers', floor=40)
-    t2 = chk.rule('T2', 'every accepted table cell dispatches to kernels of the named mode, key size and direction', floor=1500)
-    t2h = chk.rule('T2h', 'hash table entry i wraps the dispatch of algorithm i and reaches kernels of that algorithm', floor=700)
-    t3 = chk.rule('T3', 'accepted (mode,key) sets: light and full validator agree; AEAD pairing rules are symmetric', floor=60)
-    t4 = chk.rule('T4', 'cipher dispatch ORs only COMPLETED_CIPHER (or COMPLETED for whole-job AEAD), hash dispatch only COMPLETED_AUTH', floor=300)
-    t5 = chk.rule('T5', 'submit_new_job: GCM bypass only for IMB_CIPHER_GCM, first stage by chain_order, then RESUBMIT', floor=16)
-    t6 = chk.rule('T6', 'a cell that parks jobs in an out-of-order manager flushes the same manager', floor=400)
+    if only_cells:
+        t1 = t3 = t4 = t5 = _Mute()
+        t2 = chk.rule(ids[0], 'every accepted cipher table cell of the selected modes dispatches to kernels of the named mode, key size '
+                              'and direction (all variants)', floor=100) if mode_filter else _Mute()
+        t2h = chk.rule(ids[1], 'every hash table cell of the selected algorithms dispatches to kernels of the named algorithm / digest size',
+                       floor=100) if alg_filter else _Mute()
+        t6 = chk.rule(ids[2], 'selected cells flush the out-of-order manager they park jobs in', floor=50)
+    else:
+        t1 = chk.rule('T1', 'table geometry and index arithmetic agree between set_cipher_suite_id / SUBMIT_JOB_CIPHER / CALL_* readers', floor=40)
+        t2 = chk.rule('T2', 'every accepted table cell dispatches to kernels of the named mode, key size and direction', floor=1500)
+        t2h = chk.rule('T2h', 'hash table entry i wraps the dispatch of algorithm i and reaches kernels of that algorithm', floor=700)
+        t3 = chk.rule('T3', 'accepted (mode,key) sets: light and full validator agree; AEAD pairing rules are symmetric', floor=60)
+        t4 = chk.rule('T4', 'cipher dispatch ORs only COMPLETED_CIPHER (or COMPLETED for whole-job AEAD), hash dispatch only COMPLETED_AUTH', floor=300)
+        t5 = chk.rule('T5', 'submit_new_job: GCM bypass only for IMB_CIPHER_GCM, first stage by chain_order, then RESUBMIT', floor=16)
+        t6 = chk.rule('T6', 'a cell that parks jobs in an out-of-order manager flushes the same manager', floor=400)
     nvar = 0
     acc_ref = None
     for tu in P.variant_tus():
@@ -289,6 +315,8 @@ def run(chk):
                 key = '%s:%s[%s,%s,class%d]' % (vt, tabname, dirn, (mname or mv), cls)
                 if mname is None or mname == 'IMB_CIPHER_NUM' or mv == 0 or mv >= NUM:
                     continue
+                if only_cells and not (mode_filter and mode_filter(mname)):
+                    continue
                 ks = acc.get(mv)
                 if ks is None and mv in cond:
                     ks = cond[mv]  # key only constrained when ciphering happens: check the cells of those key sizes
@@ -372,6 +400,8 @@ def run(chk):
                 key = '%s:%s[%s]' % (vt, tabname, aname or i)
                 if i == 0:
                     continue
+                if only_cells and not (alg_filter and alg_filter(aname)):
+                    continue
                 if ename is None or not P.has(tu, ename):
                     t2h.bad(key, el['loc'], 'hash table entry %d (%s) is not a function' % (i, aname))
                     continue
@@ -418,6 +448,8 @@ def run(chk):
                         t6.check(not (do['digest'] and da['digest'] and do['digest'] != da['digest']) and
                                  not (do['key'] and da['key'] and do['key'] != da['key']), key + ':' + o, el['loc'],
                                  '%s uses manager %s' % (aname, o))
+        if only_cells:
+            continue
         # ---- T4 stage bits
         CIPH = P.enum('IMB_STATUS_COMPLETED_CIPHER')
         AUTH = P.enum('IMB_STATUS_COMPLETED_AUTH')
